@@ -186,8 +186,14 @@ func genOp(r *simfw.RNG, m string) Op {
 		if r.Bool() {
 			return Op{Kind: "load", Path: simfw.Pick(r, []string{"main.yaml", "main.yaml", "other.yaml", "missing.yaml"})}
 		}
+		if r.Bool() {
+			return Op{Kind: "gen", Type: fmt.Sprintf("rec:%d", r.Intn(144))}
+		}
 		return Op{Kind: "gen", Type: simfw.Pick(r, []string{"fixed:1", "dyn:3", "dyn:3", "dyn:5"})}
 	default:
+		if r.Chance(1, 3) {
+			return Op{Kind: "gen", Type: fmt.Sprintf("rec:%d", r.Intn(144))}
+		}
 		return Op{Kind: "gen", Type: simfw.Pick(r, []string{"fixed:1", "fixed:2", "fixed:inner", "dyn:1", "dyn:3", "dyn:5", "dyn:3"})}
 	}
 }
@@ -207,6 +213,9 @@ func Gen(seed uint64, tier string) *Spec {
 		// callers that hit the same cold state together are the interesting ones: sometimes duplicate an op across callers
 		if g > 0 && r.Chance(1, 3) {
 			ops[0] = s.Callers[r.Intn(g)][0]
+			if strings.HasPrefix(ops[0].Type, "rec:") && r.Bool() {
+				ops[0].Type = fmt.Sprintf("rec:%d", r.Intn(144)) // a different process-new recursive type at the same moment
+			}
 		}
 		total += n
 		s.Callers = append(s.Callers, ops)
